@@ -1,4 +1,3 @@
-pub mod error {
 use vstd::prelude::*;
 use vstd::std_specs::convert::FromSpecImpl;
 
@@ -10,6 +9,13 @@ use vstd::std_specs::convert::FromSpecImpl;
 //@item rodbus/src/error.rs | AduParseError
 //@item rodbus/src/error.rs | InvalidRequest
 
+impl FromSpecImpl<std::io::Error> for RequestError {
+    open spec fn obeys_from_spec() -> bool { true }
+    open spec fn from_spec(err: std::io::Error) -> Self { RequestError::Io(crate::io_error_kind(err)) }
+}
+impl From<std::io::Error> for RequestError {
+//@fn rodbus/src/error.rs | From<std::io::Error> for RequestError::from | tags=C10
+}
 impl FromSpecImpl<InvalidRequest> for RequestError {
     open spec fn obeys_from_spec() -> bool { true }
     open spec fn from_spec(err: InvalidRequest) -> Self { RequestError::BadRequest(err) }
@@ -59,4 +65,3 @@ impl FromSpecImpl<InvalidRange> for RequestError {
 impl From<InvalidRange> for RequestError {
 //@fn rodbus/src/error.rs | From<InvalidRange> for RequestError::from
 }
-} // mod error
